@@ -77,3 +77,32 @@ package worker
 //@   modifies all
 //@ func Pool.waitUntilLoaded property C14
 //@   ensures wp.loaded
+
+// probeAndUpdate: the worker's set of running containers is replaced by a
+// probe's result only if the probe succeeded and nothing was started or
+// changed on the worker since the probe began (the "updated" stamp read before
+// probing is still current) - otherwise a container started meanwhile would be
+// declared exited and started a second time.
+//@ func worker.probeAndUpdate property C14 safety -bounds,-nopanic,-nil
+//@   calls worker.updateRunning#1: requires ok && wkr.updated == updated && $0 == ctrUUIDs
+
+// closeRunner: only the named container leaves the running set, and when it
+// was there it is recorded as exited (so Pool.Running keeps reporting it until
+// the scheduler has reconciled) and the "updated" stamp is bumped.
+//@ iface remoteRunner.Close
+//@   modifies nothing
+//@ func remoteRunner.Close trusted
+//@   modifies nothing
+//@ func worker.closeRunner property C14 safety -nil
+//@   modifies map[string]*remoteRunner map[string]time.Time worker.updated worker.state
+//@   ensures !has(wkr.running, uuid) || old(has(wkr.running, uuid) && wkr.running[uuid] == nil)
+//@   ensures forall u string :: u != uuid ==> dom(wkr.running)[u] == old(dom(wkr.running)[u]) && wkr.running[u] == old(wkr.running[u])
+//@   ensures old(has(wkr.running, uuid) && wkr.running[uuid] != nil) && wkr.wp.exited != nil ==> has(wkr.wp.exited, uuid)
+
+// updateRunning: after a probe, every reported container is in the running set
+// (moved over from "starting" if we started it) and only containers the probe
+// did not report are closed.
+//@ func worker.updateRunning property C14 safety -nil
+//@   calls worker.closeRunner#1: requires forall k int :: 0 <= k && k < len(ctrUUIDs) ==> ctrUUIDs[k] != $0
+//@   loop 1: invariant wkr == old(wkr) && ctrUUIDs == old(ctrUUIDs) && alive != nil && (forall k int :: 0 <= k && k < $i ==> has(alive, ctrUUIDs[k]) && alive[ctrUUIDs[k]])
+//@   loop 2: invariant wkr == old(wkr) && ctrUUIDs == old(ctrUUIDs) && alive != nil && (forall k int :: 0 <= k && k < len(ctrUUIDs) ==> has(alive, ctrUUIDs[k]) && alive[ctrUUIDs[k]])
